@@ -7,7 +7,7 @@ use async_graphql_value::Value;
 
 use super::{
     visitor::{VisitMode, Visitor, VisitorContext, VisitorNil, visit},
-    visitors::{ComplexityCalculate, DepthCalculate},
+    visitors::{CacheControlCalculate, ComplexityCalculate, DepthCalculate},
 };
 use crate::{
     Name, Pos, Positioned, Variables,
@@ -15,7 +15,8 @@ use crate::{
         Directive, ExecutableDocument, Field, FragmentDefinition, FragmentSpread, InlineFragment,
         OperationDefinition, Selection, SelectionSet, VariableDefinition,
     },
-    registry::{MetaTypeName, Registry},
+    registry::{MetaType, MetaTypeName, Registry},
+    CacheControl,
 };
 
 /// Number of callbacks of the `Visitor` trait (besides `mode`).
@@ -329,4 +330,28 @@ pub fn check_rules_fast(
 /// Whether the composite of two recorders reports the visit mode of its head.
 pub fn cons_mode_is_inline(a: &Counters, b: &Counters) -> bool {
     VisitorNil.with(Recorder(a)).with(Recorder(b)).mode() == VisitMode::Inline
+}
+
+/// Drives the real cache-control visitor, composed as `check_rules` composes it, with one
+/// `enter_selection_set` event per given object type (the type being the current type of the
+/// walk, as `visit_selection_set` arranges it). Returns the accumulated policy.
+pub fn drive_cache_control(
+    registry: &Registry,
+    doc: &ExecutableDocument,
+    selection_set: &Positioned<SelectionSet>,
+    types: &[&MetaType],
+) -> CacheControl {
+    let mut cache_control = CacheControl::default();
+    {
+        let mut ctx = VisitorContext::new(registry, doc, None, None);
+        let mut visitor = VisitorNil.with(CacheControlCalculate {
+            cache_control: &mut cache_control,
+        });
+        for ty in types {
+            ctx.with_type(Some(*ty), |ctx| {
+                visitor.enter_selection_set(ctx, selection_set)
+            });
+        }
+    }
+    cache_control
 }
